@@ -54,7 +54,7 @@ def generate():
         fns.append(fn); logs += log; stmts[name] = st
     txt = "// GENERATED from /repo on every run by units/k23_slices.py - do not edit\n#include <cmath>\n#include <vector>\n#include <cstddef>\n" + "\n".join(fns)
     txt += "\n#define VP_SLICE_SITES {" + ", ".join('{"%s", slice_%s}' % (n, n) for n, _, _, _ in SITES) + "}\n"
-    d = ensure_dir(os.path.join(WORK, "gen"))
+    d = ensure_dir(os.path.join(WORK, "gen-" + sha(txt)[:12]))      # keyed by content: concurrent runs on different trees do not share it
     p = os.path.join(d, "vp_slices_gen.hpp")
     if not os.path.exists(p) or open(p).read() != txt:
         write(p, txt)
